@@ -250,6 +250,69 @@ fn relations() -> Sub {
     .witness(&["relations-agree"])
 }
 
+/// ids (and PASERK text) of every byte string both backends of a version accept are identical
+fn sibling_ids(ctx: &Ctx) -> Vec<Sub> {
+    use crate::backends::{Visitor, dispatch};
+    use crate::c08::KK;
+    struct IdOf<'a>(KK, &'a [u8]);
+    impl Visitor for IdOf<'_> {
+        /// (PASERK string of the decoded key, id string) if accepted
+        type Out = Result<Option<(String, String)>, String>;
+        fn visit<V: Full>(self) -> Self::Out {
+            subject(|| match self.0 {
+                KK::Local => keys::try_key::<V, Local>(self.1).map(|k| (k.expose_key().to_string(), k.id().to_string())),
+                KK::Public => keys::try_key::<V, Public>(self.1).map(|k| (k.expose_key().to_string(), k.id().to_string())),
+                KK::Secret => keys::try_key::<V, Secret>(self.1).map(|k| (k.expose_key().to_string(), k.id().to_string())),
+                KK::PkePublic => keys::try_key::<V, PkePublic>(self.1).map(|k| (k.expose_key().to_string(), k.id().to_string())),
+                KK::PkeSecret => keys::try_key::<V, PkeSecret>(self.1).map(|k| (k.expose_key().to_string(), k.id().to_string())),
+            })
+        }
+    }
+    let mut out = Vec::new();
+    for (ver, a, b) in [(3u8, 2usize, 3usize), (4u8, 4usize, 5usize)] {
+        let cands = Arc::new(crate::c08::key_candidates(ver, ctx.thorough()));
+        let n = cands.len() as u64;
+        out.push(
+            Sub::new(
+                format!("sibling-ids/k{ver}"),
+                n,
+                format!("every byte string of the C08 key alphabet for k{ver} ({n} strings incl. non-canonical and boundary encodings) x 5 key kinds: whenever both backends of the version accept it, their PASERK text and key id are identical and the id is the specification's digest of that text"),
+                move |idx, describe| {
+                    let (label, bytes) = &cands[idx as usize];
+                    let mut o = Outcome::new();
+                    o.evals = 0;
+                    if describe {
+                        o.sample = Some(json!({"version": ver, "candidate": label, "bytes": hexs(bytes)}));
+                    }
+                    for (kk, idh) in [(KK::Local, ".lid."), (KK::Public, ".pid."), (KK::Secret, ".sid."), (KK::PkePublic, ".pid."), (KK::PkeSecret, ".sid.")] {
+                        o.evals += 1;
+                        let ra = dispatch(a, IdOf(kk, bytes));
+                        let rb = dispatch(b, IdOf(kk, bytes));
+                        match (ra, rb) {
+                            (Ok(Some((ta, ia))), Ok(Some((tb, ib)))) => {
+                                let want = format!("k{ver}{idh}{}", b64(&spec::key_id(ver, idh, &ta)));
+                                if ta != tb || ia != ib {
+                                    o.violate(format!("sibling-ids/k{ver}/{kk:?}/differ"), format!("the two k{ver} backends give different PASERK text / id for the same accepted key bytes ({label})"), json!({"bytes": hexs(bytes), "a": [ta, ia], "b": [tb, ib]}));
+                                } else if ia != want {
+                                    o.violate(format!("sibling-ids/k{ver}/{kk:?}/not-spec"), format!("id is not the digest of the key's PASERK text ({label})"), json!({"bytes": hexs(bytes), "id": ia, "want": want}));
+                                } else {
+                                    o.class("siblings-agree");
+                                }
+                            }
+                            (Err(p), _) | (_, Err(p)) => o.violate(format!("sibling-ids/k{ver}/{kk:?}/panic"), p, json!({"bytes": hexs(bytes)})),
+                            _ => o.class("not-accepted-by-both"),
+                        }
+                    }
+                    o.nontrivial = o.evals;
+                    o
+                },
+            )
+            .witness(&["siblings-agree", "not-accepted-by-both"]),
+        );
+    }
+    out
+}
+
 pub fn build(ctx: &Ctx) -> Property {
     let mut p = Property::new("C13", "exploration");
     p.subs.push(specvec::sub(specvec::Cats::IDS));
@@ -259,6 +322,7 @@ pub fn build(ctx: &Ctx) -> Property {
     add::<backends::V3L>(&mut p, ctx);
     add::<backends::V4>(&mut p, ctx);
     add::<backends::V4S>(&mut p, ctx);
+    p.subs.extend(sibling_ids(ctx));
     p.subs.push(text_forms());
     p.subs.push(relations());
     p.assume("reference: SHA-384 truncated to 33 bytes (k1, k3) / BLAKE2b-33 (k2, k4) of \"kN\" || id header || canonical PASERK string, computed with sha2 / blake2 directly and validated on the official id vectors; sibling backends are compared through the common reference");
